@@ -354,9 +354,18 @@ R.contract(
 def _quote_plus(it, a, k=None):
     """E5 urllib.parse.quote_plus as an uninterpreted function str -> str (percent-encoding, inverted by unquote_plus)."""
     import z3
+    from urllib.parse import quote_plus as _real
     from pyvc.values import wrap, z3_of
 
-    return wrap(z3.Function("urllib.quote_plus", z3.StringSort(), z3.StringSort())(z3_of(a[0])))
+    f = z3.Function("urllib.quote_plus", z3.StringSort(), z3.StringSort())
+    if isinstance(a[0], str):
+        # a concrete argument: the library's own result (and the uninterpreted function agrees with it)
+        it.path.assume(f(z3.StringVal(a[0])) == z3.StringVal(_real(a[0])))
+        return _real(a[0])
+    # facts about the library function on the spellings the callers produce themselves (unreserved characters are never encoded)
+    for lit in ("true", "false", "null"):
+        it.path.assume(f(z3.StringVal(lit)) == z3.StringVal(lit))
+    return wrap(f(z3_of(a[0])))
 
 
 R.extern["urllib.parse.quote_plus"] = _quote_plus
@@ -409,6 +418,134 @@ def _n_old_value():
 
 NATIVE = {"helpers": {"old_value": _n_old_value, "snapshot_value": __import__("copy").deepcopy, "is_str": lambda v: isinstance(v, str), "jsonified": _n_jsonified, "deep": __import__("copy").deepcopy, "url_of": _n_url, "is_empty_dict": lambda v: isinstance(v, dict) and len(v) == 0, "same": _n_same},
           "patch": {"schemathesis.transport.prepare:prepare_url": _n_url, "schemathesis.transport.requests:prepare_url": _n_url}}
+
+
+# ------------------------------------------------------------------------------------------------- coverage phase: _stringify_value (the wire spelling of boundary values)
+BLDR = "schemathesis.generation.hypothesis.builder:"
+SLeaf = OneOf(Bool, NoneT, Str, Choice(0, -3))
+SInner = OneOf(Bool, NoneT, Str, Const(7), ListOf(SLeaf, [0, 1], widen=False))
+SElem = OneOf(Bool, NoneT, Str, Choice(0, -3), ListOf(SInner, [0, 1, 2], widen=False), DictOf(optional={"k": SInner}))
+
+
+def _stringified(it, v, container):
+    """Wire spelling of a coverage value in a non-body location (specification): null / true / false, decimal numbers, query arrays as repeated values, other arrays
+    comma-separated, objects member-wise, strings untouched."""
+    import z3
+    from pyvc.values import SBool, wrap
+
+    if isinstance(v, dict):
+        return {k: _stringified(it, x, container) for k, x in v.items()}
+    if isinstance(v, list):
+        items = [_stringified(it, x, container) for x in v]
+        if container == "query":
+            return items
+        return it.B._sym_join(it, ",", items)
+    if isinstance(v, bool):
+        return "true" if v else "false"
+    if isinstance(v, SBool):
+        return wrap(z3.If(v.z, z3.StringVal("true"), z3.StringVal("false")))
+    if v is None:
+        return "null"
+    if isinstance(v, int):
+        return str(v)
+    return v
+
+
+R.spec_funcs["stringified"] = _stringified
+R.contract(
+    BLDR + "_stringify_value",
+    prop="C06",
+    args={"val": SElem, "container_name": Choice("query", "headers", "path_parameters")},
+    raises=["TypeError"],
+    ensures={
+        # the request carries the generated value: every scalar in its JSON / decimal spelling, arrays in the location's default array form
+        "wire_spelling_of_the_value": "result == stringified(old(deep(val)), container_name)",
+    },
+    # (a nested list inside a non-query list cannot be joined: TypeError - only raised in that case)
+    raises_ensures={"only_a_nested_array_outside_the_query_cannot_be_spelled": "container_name != 'query' and is_instance(val, 'list') and any(is_instance(x, 'list') and length(x) > 0 or is_instance(x, 'dict') for x in val)"},
+    bounded_note="values nested up to depth 3, lists up to 2 elements (inner lists up to 1), integers 0 / 7 / -3",
+    max_paths=30000,
+    inline=True,  # (the recursion is followed, not cut: values are finite trees)
+)
+
+
+# ------------------------------------------------------------------------------------------------- coverage phase: Template._serialize (which conversions, in which order, per location)
+R.contracts[HY + "quote_all"].inline = True  # (call sites follow the real body; its own contract is verified above)
+
+
+def _quoted_all(it, d):
+    import z3
+    from pyvc.values import wrap, z3_of, SStr
+
+    out = {}
+    for k, v in d.items():
+        if isinstance(v, (str, SStr)):
+            z = z3_of(v)
+            out[k] = wrap(z3.If(z == z3.StringVal("."), z3.StringVal("%2E"), z3.If(z == z3.StringVal(".."), z3.StringVal("%2E%2E"), z3_of(_quote_plus(it, [v])))))
+        else:
+            out[k] = v
+    return out
+
+
+R.spec_funcs["quoted_all"] = _quoted_all
+_SerOut = {"query": DictOf(required={"p": OneOf(Str, Bool, Const(3))}), "headers": DictOf(required={"p": Str}), "cookies": DictOf(required={"p": Str}), "path_parameters": DictOf(required={"p": OneOf(Str, Bool)})}
+
+
+def _location_serializer(location):
+    def returns(it, env):
+        out = _SerOut[location].make(it, it.path.fresh("serialized:" + location))
+        it.ghost["ser_in"] = {**it.ghost["ser_in"], location: it.B._deepcopy(env["value"], {})}
+        it.ghost["ser_out"] = {**it.ghost["ser_out"], location: it.B._deepcopy(out, {})}
+        return out
+
+    return returns
+
+
+class _Serializers(D):
+    """The operation's parameter serializers: none, or one for every non-body location."""
+
+    def make(self, it, name, idx=()):
+        from pyvc.interp import SpecCallable
+
+        if not it.path.choose([(False, True), (True, True)], "has-serializers"):
+            return {}
+        return {loc: SpecCallable("serialize_" + loc, "spec:serialize_" + loc, None) for loc in _SerOut}
+
+
+for _loc in _SerOut:
+    R.contract("spec:serialize_" + _loc, args={"value": Opq("Any")}, returns=_location_serializer(_loc), trusted=True, note="style serializer of the location (own contracts above): dict -> dict of wire strings")
+TLeaf = OneOf(Str, Bool, NoneT, Const(5))
+_TKW = {"query": DictOf(required={"q": OneOf(TLeaf, ListOf(TLeaf, [0, 1, 2], widen=False))}), "headers": DictOf(required={"h": TLeaf}), "path_parameters": DictOf(required={"id": TLeaf})}
+_TCLAUSES = {
+    # without a style serializer: the location in its wire spelling (path values percent-encoded first);
+    # with one: headers are spelled BEFORE the style serializer sees them (it expects strings); query / path values are serialized as generated and spelled AFTERWARDS;
+    # path values are percent-encoded after serialization
+    "query": {"no_serializer_means_plain_wire_spelling": "implies(length(self._serializers) == 0, result['query'] == stringified(old(deep(kwargs))['query'], 'query'))",
+              "query_serialized_then_spelled": "implies(length(self._serializers) > 0, ghost('ser_in')['query'] == old(deep(kwargs))['query'] and result['query'] == stringified(ghost('ser_out')['query'], 'query'))"},
+    "headers": {"no_serializer_means_plain_wire_spelling": "implies(length(self._serializers) == 0, result['headers'] == stringified(old(deep(kwargs))['headers'], 'headers'))",
+                "headers_spelled_before_serialization": "implies(length(self._serializers) > 0, ghost('ser_in')['headers'] == stringified(old(deep(kwargs))['headers'], 'headers') and result['headers'] == ghost('ser_out')['headers'])"},
+    "path_parameters": {"no_serializer_means_plain_wire_spelling": "implies(length(self._serializers) == 0, result['path_parameters'] == stringified(quoted_all(old(deep(kwargs))['path_parameters']), 'path_parameters'))",
+                        "path_serialized_then_encoded_then_spelled": "implies(length(self._serializers) > 0, ghost('ser_in')['path_parameters'] == old(deep(kwargs))['path_parameters'] and "
+                                                                     "result['path_parameters'] == stringified(quoted_all(ghost('ser_out')['path_parameters']), 'path_parameters'))"},
+}
+for _loc in _TKW:
+    R.contract(
+        BLDR + "Template._serialize",
+        variant=_loc,
+        prop="C06",
+        args={"self": Obj(BLDR + "Template", _serializers=_Serializers(), _template=Const({}), _components=Const({})),
+              "kwargs": DictOf(required={_loc: _TKW[_loc]}, optional={"body": Opq("Body"), "media_type": Str})},
+        ghost={"ser_in": {}, "ser_out": {}},
+        raises=[],
+        ensures={
+            "same_locations_out_as_in": "sorted(result) == sorted(old(dict(kwargs)))",
+            "body_and_media_type_untouched": "implies('body' in result, result['body'] is old(dict(kwargs))['body']) and implies('media_type' in result, result['media_type'] == old(dict(kwargs))['media_type'])",
+            **_TCLAUSES[_loc],
+        },
+        bounded_note="one parameter in the location; query arrays up to 2 elements",
+        max_paths=5000,
+        replayable=False,
+    )
 
 LEVEL_TEXT = ("Deductive: each style encoder against the wire form of the OpenAPI serialization table, serialize_case's query/cookie/method/url pass-through; "
               "arrays/objects explored up to a small size (labelled bounded). URL composition and the requests library are trusted. Level other.")
